@@ -165,7 +165,7 @@ def rule_rowgen(P) -> RuleResult:
 
             def on_isinstance(v, c, ex, _t=is_txn):
                 return _t
-            paths = Engine(P, on_call=on_call, on_isinstance=on_isinstance).paths(it, {'self': SELF})
+            paths = Engine(P, on_call=on_call, on_isinstance=on_isinstance, inline_generators='lazy').paths(it, {'self': SELF})
             entry = T('elem', (ENTRIES,))
             what = 'a transaction' if is_txn else 'a directive that is not a transaction'
             for p in paths:
